@@ -14,6 +14,7 @@ import (
 const (
 	appConfigDir  = "ps3netsrv-go"
 	appConfigFile = "config.ini"
+	configFileEnv = "PS3NETSRV_CONFIG_FILE"
 )
 
 var (
@@ -53,6 +54,12 @@ func main() {
 
 func configLocations() []string {
 	var ret []string
+
+	// kong handles config flag only when it's given in command line, so its environment variable served here
+	if envConfig := os.Getenv(configFileEnv); envConfig != "" {
+		ret = append(ret, envConfig)
+	}
+
 	userConfigDir, err := os.UserConfigDir()
 	if err == nil {
 		ret = append(ret, filepath.Join(userConfigDir, appConfigDir, appConfigFile))
